@@ -194,4 +194,7 @@ theorem d13_witness :
     -- r1 is a view of the pooled storage, whose contents are now pool2:
     (r1 = pool1) ∧ pool2 ≠ [1, 2, 3] := by decide
 
+/-- the tie: findPool / findPutPool were translated from the current source this run -/
+theorem tie_pool : Gen.poolTieOk = true := by decide
+
 end Rpcx.Props.C20
